@@ -6,6 +6,13 @@ Nothing is re-proved here: the lemmas only put the imported results of C08 (HMAC
 RFC 2104 / FIPS 180-4), C09 (ChaCha20 model = RFC 8439), C12 (one session key at both ends),
 C13/C15/C16 (signed codec) and C14 (frames over a TCP stream) into a common shape.
 
+C14 is imported at its lemma layer (`Lemmas/C14Spec.lean`), not as `Proofs/C14.lean`: that module also
+carries C14's concurrency obligation (`sendHoldsSessionLock`), which is about a different clause and
+is false on trees without `fixes/C14-session-send-lock.patch`; importing it would make every system
+theorem (and the C13 check that builds them) fail for a reason unrelated to what is composed here.
+`frames_stream` below is the statement of `C14.stream`, obtained from the same imported lemma
+(`feed_frames`) by the same three lines.
+
 The four system statements are written once, as predicates over the *functions* that play the
 roles (hash, MAC, signed decoder, frame encoder), so that `Proofs/SystemMessaging.lean` can state
 them for the specification functions and, word for word, for the implementation models.
@@ -14,7 +21,7 @@ import EphVerif.Proofs.C08
 import EphVerif.Proofs.C09
 import EphVerif.Proofs.C12
 import EphVerif.Proofs.C13
-import EphVerif.Proofs.C14
+import EphVerif.Lemmas.C14Spec
 import EphVerif.Proofs.C15
 import EphVerif.Proofs.C16
 
@@ -107,6 +114,19 @@ theorem flatMap_congr_mem {α β : Type} {l : List α} {f g : α → List β} (h
   | cons a l ih =>
     simp only [List.flatMap_cons]
     rw [h a (List.mem_cons_self ..), ih fun b hb => h b (List.mem_cons_of_mem _ hb)]
+
+/-! ### bridging lemma: C14's stream clause (statement of `C14.stream`, from C14's `feed_frames`) -/
+
+theorem frames_stream (key : Bytes) (frames : List (Bytes × Bytes)) (chunks : List Bytes)
+    (hk : key.length = 32) (hn : ∀ f ∈ frames, f.1.length = 12) (hp : ∀ f ∈ frames, f.2.length ≤ 1048576)
+    (hchunks : chunks.flatten = frames.flatMap fun f => Frames.encodeFrame key f.1 f.2) :
+    let r := Frames.feedChunks key Frames.Reader.init chunks
+    r.delivered = frames.map (·.2) ∧ r.ended = none ∧
+      r.consumed = (frames.map fun f => 16 + f.2.length).sum ∧ r.want = .nonce ∧ r.acc = [] := by
+  have := Frames.feed_frames key frames Frames.Reader.init Frames.idle_init hk hn hp
+  simp only [Frames.feedChunks_eq, hchunks]
+  obtain ⟨i, d, c, _⟩ := this
+  exact ⟨by simpa [Frames.Reader.init] using d, i.ended, by simpa [Frames.Reader.init] using c, i.want, i.acc⟩
 
 /-! ### bridging lemmas: signed codec -/
 
